@@ -20,6 +20,7 @@ SYSCALLS = "openat,open,creat,write,pwrite64,writev,close,rename,renameat,rename
 _HEX = re.compile(r"\\x([0-9a-f]{2})")
 _STR = re.compile(r'"((?:\\x[0-9a-f]{2})*)"(\.\.\.)?')
 _LINE = re.compile(r"^(\d+)\s+(\w+)\((.*)\)\s+=\s+(-?\d+)")
+_FDPATH = re.compile(r"^(\d+)<((?:\\x[0-9a-f]{2})*)>")       # `-y`: the descriptor's path, hex-escaped under `-xx`
 
 
 class TraceError(Exception):
@@ -94,6 +95,21 @@ def _unhex(s):
     return bytes(int(x, 16) for x in _HEX.findall(s))
 
 
+def _other_file(args, path):
+    """Does strace's `-y` annotation of the first argument (a descriptor) name something else than `path`?  The per-process
+    descriptor tables are not tracked (threads share them, `fork` copies them), so a descriptor number is also looked up under
+    other task ids; the annotation tells a socket / pipe / other file of ANOTHER process with the same number apart (seen: the
+    server process of a `multiprocessing.Manager` answering a new connection on descriptor n while the parent has
+    `dict_array.cloudpickle`'s temporary file open as n)."""
+    m = _FDPATH.match(args)
+    if not m or path is None:
+        return False
+    ann = _unhex(m.group(2)).decode(errors="replace")
+    if ann.endswith(" (deleted)"):
+        ann = ann[: -len(" (deleted)")]
+    return bool(ann) and os.path.abspath(ann) != path if ann.startswith("/") else bool(ann)
+
+
 def _joined_lines(trace_path):
     pending = {}
     with open(trace_path, errors="replace") as fh:
@@ -151,7 +167,7 @@ def parse(trace_path, folder, log_path=None):
             if path is None:
                 # threads of one process share descriptors: look for the same fd under another task id
                 cands = [p for (q, f), p in fds.items() if f == fd]
-                path = cands[0] if len(cands) == 1 else None
+                path = cands[0] if len(cands) == 1 and not _other_file(args, cands[0]) else None
             if path is None:
                 continue
             if call != "write" and inside(path):
@@ -174,9 +190,10 @@ def parse(trace_path, folder, log_path=None):
             path = fds.pop((pid, fd), None)
             if path is None:
                 for key in [k for k in fds if k[1] == fd]:
-                    # a close by another task of the same process
-                    path = fds.pop(key)
-                    break
+                    # a close by another task of the same process (not: another process closing ITS descriptor of that number)
+                    if not _other_file(args, fds[key]):
+                        path = fds.pop(key)
+                        break
             if path is not None and inside(path):
                 ev.append(("close", path))
         elif call in ("mkdir", "mkdirat"):
